@@ -234,13 +234,14 @@ func specReadFull(fr *frame, c *ssa.CallCommon, args []T, st *state, pos string)
 	err := fr.freshOf("rf_err", c.Signature().Results().At(1).Type(), st)
 	cur := vc.define("rf_cur", "Int", vc.ghostGet(st, "G_consumed", r.S))
 	fr.havocTarget(T{buf.S, "Slice", c.Args[1].Type()}, st, pos)
-	bs := vc.define("rf_buf", "Slice", buf.S)
+	bs := vc.nameConst("rf_buf", "Slice", buf.S)
 	h := vc.heapArr("Int")
-	arr := fmt.Sprintf("(select %s (s_arr %s))", vc.heapGet(st, h), bs)
+	hcur := vc.heapGet(st, h)
 	vc.assume(st.reach, fmt.Sprintf("(and (<= 0 %s) (<= %s (s_len %s)) (<= (+ %s %s) (io.total %s)))", n.S, n.S, bs, cur, n.S, r.S))
 	vc.assume(st.reach, fmt.Sprintf("(=> (= %s 0) (= %s (s_len %s)))", err.S, n.S, bs))
 	vc.assume(st.reach, fmt.Sprintf("(=> (not (= %s 0)) (< %s (s_len %s)))", err.S, n.S, bs))
-	vc.assume(st.reach, fmt.Sprintf("(forall ((j Int)) (! (=> (and (<= 0 j) (< j %s)) (= (select %s (+ (s_off %s) j)) (io.stream %s (+ %s j)))) :pattern ((select %s (+ (s_off %s) j)))))", n.S, arr, bs, r.S, cur, arr, bs))
+	atj := vc.at("Int", hcur, bs, "j")
+	vc.assume(st.reach, fmt.Sprintf("(forall ((j Int)) (! (=> (and (<= 0 j) (< j %s)) (= %s (io.stream %s (+ %s j)))) :pattern (%s)))", n.S, atj, r.S, cur, atj))
 	vc.ghostSet(st, "G_consumed", r.S, fmt.Sprintf("(+ %s %s)", cur, n.S))
 	return []T{n, err}
 }
@@ -270,9 +271,9 @@ func (fr *frame) ioInvoke(c *ssa.CallCommon, st *state, pos string) ([]T, bool) 
 		cur := vc.define("r_cur", "Int", vc.ghostGet(st, "G_consumed", r.S))
 		fr.havocTarget(T{p.S, "Slice", c.Args[0].Type()}, st, pos)
 		h := vc.heapArr("Int")
-		arr := fmt.Sprintf("(select %s (s_arr %s))", vc.heapGet(st, h), p.S)
+		atj := vc.at("Int", vc.heapGet(st, h), p.S, "j")
 		vc.assume(st.reach, fmt.Sprintf("(and (<= 0 %s) (<= %s (s_len %s)) (<= (+ %s %s) (io.total %s)))", n.S, n.S, p.S, cur, n.S, r.S))
-		vc.assume(st.reach, fmt.Sprintf("(forall ((j Int)) (! (=> (and (<= 0 j) (< j %s)) (= (select %s (+ (s_off %s) j)) (io.stream %s (+ %s j)))) :pattern ((select %s (+ (s_off %s) j)))))", n.S, arr, p.S, r.S, cur, arr, p.S))
+		vc.assume(st.reach, fmt.Sprintf("(forall ((j Int)) (! (=> (and (<= 0 j) (< j %s)) (= %s (io.stream %s (+ %s j)))) :pattern (%s)))", n.S, atj, r.S, cur, atj))
 		vc.ghostSet(st, "G_consumed", r.S, fmt.Sprintf("(+ %s %s)", cur, n.S))
 		return []T{n, err}, true
 	}
